@@ -211,12 +211,20 @@ theorem shrinkTo_spec (zero : α) (s : Sl α) (l : List α) :
     (s.shrinkTo zero l).arr = l ++ List.replicate (s.items.length - l.length) zero ++ s.arr.drop s.len :=
   ⟨items_shrinkTo zero s l, rfl, rfl⟩
 
+/-- `Grow`: panics for a negative `n` and when more than `allocLimit` new elements would have to be
+allocated; otherwise the contents are kept, `n` more elements fit, and the array is kept iff they
+already fitted. -/
 theorem grow_spec (zero : α) (s : Sl α) (n : Int) :
     (n < 0 → grow zero s n = none) ∧
-    (0 ≤ n → ∃ r, grow zero s n = some r ∧ r.items = s.items ∧ r.items.length + n.toNat ≤ r.cap ∧
+    (0 ≤ n → Stdlib.allocLimit < n → s.cap < s.len + n.toNat → grow zero s n = none) ∧
+    (0 ≤ n → (n ≤ Stdlib.allocLimit ∨ s.len + n.toNat ≤ s.cap) →
+      ∃ r, grow zero s n = some r ∧ r.items = s.items ∧ r.items.length + n.toNat ≤ r.cap ∧
       (s.len + n.toNat ≤ s.cap → r = s) ∧ (s.cap < s.len + n.toNat → r.fresh = true)) := by
   unfold grow growW Stdlib.grow
-  refine ⟨fun h => by simp [h], fun h => ?_⟩
+  refine ⟨fun h => by simp [h], fun h hbig hc => ?_, fun h hal => ?_⟩
+  · have h' : ¬ n < 0 := by omega
+    have hc' : ¬ s.len + n.toNat ≤ s.cap := by omega
+    simp [h', hc', hbig]
   have h' : ¬ n < 0 := by omega
   simp only [h', ↓reduceIte]
   by_cases hc : s.len + n.toNat ≤ s.cap
@@ -224,7 +232,11 @@ theorem grow_spec (zero : α) (s : Sl α) (n : Int) :
     refine ⟨?_, by omega⟩
     simp only [Sl.items, Sl.cap, List.length_take] at hc ⊢
     omega
-  · simp only [hc, ↓reduceIte, Option.some.injEq, exists_eq_left', false_imp_iff, true_and, implies_true, and_true]
+  · have hal' : ¬ n > Stdlib.allocLimit := by
+      rcases hal with hal | hal
+      · omega
+      · exact absurd hal hc
+    simp only [hc, hal', ↓reduceIte, Option.some.injEq, exists_eq_left', false_imp_iff, true_and, implies_true, and_true]
     constructor
     · simp [Sl.items]
     · simp [Sl.items, Sl.cap]
@@ -263,7 +275,15 @@ theorem insertAt_spec (s : Sl α) (idx : Int) (vals : List α) (hs : s.WF) :
         cases hr
         exact ⟨items_mk _ _, fun h => by omega, fun _ => rfl⟩
 
-theorem remove_spec (zero : α) (s : Sl α) (idx n : Int) (hs : s.WF) :
+seal Juniper.Facts.wrap64
+
+/-- `Remove(s, idx, n)` = `slices.Delete(s, idx, idx+n)` in 64-bit arithmetic, for EVERY pair of `int`
+arguments: it panics exactly outside `0 ≤ idx, 0 ≤ n, idx + n ≤ len(s)` (the sum taken in the
+integers — when `idx + n` overflows it wraps to a negative number, which `Delete` rejects as well). -/
+theorem remove_spec (zero : α) (s : Sl α) (idx n : Int) (hs : s.WF)
+    (hl64 : (s.len : Int) ≤ 9223372036854775807)
+    (hi : -9223372036854775808 ≤ idx ∧ idx ≤ 9223372036854775807)
+    (hn : -9223372036854775808 ≤ n ∧ n ≤ 9223372036854775807) :
     (remove zero s idx n = none ↔ idx < 0 ∨ n < 0 ∨ (s.len : Int) < idx + n) ∧
     (∀ r, remove zero s idx n = some r →
       r.items = s.items.take idx.toNat ++ s.items.drop (idx + n).toNat ∧ r.fresh = s.fresh ∧
@@ -271,7 +291,8 @@ theorem remove_spec (zero : α) (s : Sl α) (idx n : Int) (hs : s.WF) :
   unfold remove removeW Stdlib.delete
   have hl := length_items s hs
   by_cases hp : 0 ≤ idx ∧ idx ≤ idx + n ∧ idx + n ≤ (s.len : Int)
-  · rw [if_pos hp]
+  · have hw : Juniper.Facts.wrap64 (idx + n) = idx + n := wrap64_of_range (by omega) (by omega)
+    rw [hw, if_pos hp]
     refine ⟨by simp; omega, fun r hr => ?_⟩
     cases hr
     obtain ⟨h1, h2, h3⟩ := shrinkTo_spec zero s (s.items.take idx.toNat ++ s.items.drop (idx + n).toNat)
@@ -280,7 +301,16 @@ theorem remove_spec (zero : α) (s : Sl α) (idx n : Int) (hs : s.WF) :
     congr 3
     simp only [List.length_append, List.length_take, List.length_drop, hl]
     omega
-  · rw [if_neg hp]
+  · have hp' : ¬ (0 ≤ idx ∧ idx ≤ Juniper.Facts.wrap64 (idx + n) ∧ Juniper.Facts.wrap64 (idx + n) ≤ (s.len : Int)) := by
+      have hr := wrap64_range (idx + n)
+      by_cases hin : idx + n ≤ 9223372036854775807 ∧ -9223372036854775808 ≤ idx + n
+      · rw [wrap64_of_range hin.2 hin.1]; exact hp
+      · -- the sum overflowed: both arguments have the same sign; the wrapped sum has the other one
+        intro ⟨h0, h1, h2⟩
+        have : Juniper.Facts.wrap64 (idx + n) = idx + n - 18446744073709551616 :=
+          wrap64_overflow_pos (by omega) (by omega)
+        omega
+    rw [if_neg hp']
     refine ⟨by simp; omega, fun r hr => by cases hr⟩
 
 theorem sortSliceStable_items (zero : α) (x : Sl α) (less : α → α → Bool) :
